@@ -556,6 +556,13 @@ def run_composite_copy(sx, kind):
         for lab in [op.bottom_face.projected_to, op.top_face.projected_to, *op.side_projects]:
             if lab:
                 used.add(lab)
+        # ... and the labels of projected edges (face edges and side edges) and of projected points
+        for edge in [*op.bottom_face.edges, *op.top_face.edges, *op.side_edges]:
+            if isinstance(edge, cb.Project):
+                used.update([edge.label] if isinstance(edge.label, str) else list(edge.label))
+        for face in (op.bottom_face, op.top_face):
+            for point in face.points:
+                used.update(point.projected_to)
     defined = set((e2.geometry or {}).keys())
     sx.prove(used <= defined, f"{kind}.copy(): every geometry the copy projects to is defined by the copy",
              f"C09:{kind}:copy:geometry", info={"used": sorted(used), "defined": sorted(defined)})
